@@ -31,7 +31,18 @@ CONFIGS = {
     "tube_sym_pm": dict(model="tube", sym=True, relief=True, pm=True),
     # right-half symmetric mesh (root node first) with an interior chordwise row of mesh nodes
     "tube_right_nx3": dict(model="tube", sym=True, relief=True, side="right", nx=3),
+    # rotation rates about a user-given centre (AerostructPoint(rotational=True))
+    "tube_full_rot": dict(model="tube", sym=False, relief=True, rot=True),
 }
+
+
+def rot_kw(cfg, flow):
+    """extra builder arguments for rotational configurations"""
+    if not CONFIGS[cfg].get("rot"):
+        return flow, {}
+    fl = dict(flow)
+    fl.update(omega=[0.05, 0.06, -0.04], cg=[1.2, 0.3, 0.1])
+    return fl, dict(rotational=True)
 
 
 def pm_of(cfg):
@@ -66,6 +77,7 @@ def states(tier, seed):
     for order in itertools.permutations(range(3)):
         st.append(dict(part="path", cfg="tube_sym_pm", nl="nlbgs", lin="direct", guess="default", order=list(order), fam=fam))
         st.append(dict(part="path", cfg="tube_right_nx3", nl="newton", lin="lbgs", guess="default", order=list(order), fam=fam))
+        st.append(dict(part="path", cfg="tube_full_rot", nl="default", lin="default", guess="default", order=list(order), fam=fam))
     for k in range(3):
         st.append(dict(part="fixed", cfg="tube_right_nx3", k=k, fam=fam))
     st.append(dict(part="multi", cfg="tube_right_nx3", npts=2, rev=False, fam=fam))
@@ -106,7 +118,8 @@ _REFS = {}
 def ref_obs(cfg, fam, k):
     key = (cfg, fam, k)
     if key not in _REFS:
-        p = builders.build_aerostruct([surface(cfg, fam)], FLOW, pm=pm_of(cfg))
+        fl, rk = rot_kw(cfg, FLOW)
+        p = builders.build_aerostruct([surface(cfg, fam)], fl, pm=pm_of(cfg), **rk)
         builders.tighten(p)
         set_pt(p, k)
         p.run_model()
@@ -119,7 +132,8 @@ def run_state(s):
 
 
 def part_path(s):
-    p = builders.build_aerostruct([surface(s["cfg"], s["fam"])], FLOW, pm=pm_of(s["cfg"]))
+    fl, rk = rot_kw(s["cfg"], FLOW)
+    p = builders.build_aerostruct([surface(s["cfg"], s["fam"])], fl, pm=pm_of(s["cfg"]), **rk)
     builders.tighten(p, nl=s["nl"], lin=s["lin"])
     viol, val = [], 0
     dg = []
